@@ -68,9 +68,17 @@ fn json_body(rng: &mut Rng, ep: &str) -> Vec<u8> {
     } else {
         obj
     };
+    // sometimes a long string member with multi-byte characters (bodies of several hundred bytes)
+    let s = if rng.chance(1, 5) {
+        let unit = *rng.pick(&["\u{20bf}", "\u{e9}", "a\u{20bf}", "\u{1f600}", "ab\u{e9}"]);
+        let pad: String = std::iter::repeat(unit).take(rng.range(20, 200) as usize).collect();
+        let lead: String = std::iter::repeat("x").take(rng.below(4) as usize).collect();
+        if s.starts_with('{') { format!("{{\"note\":\"{}{}\",{}", lead, pad, &s[1..]) } else { format!("[\"{}{}\",{}]", lead, pad, s) }
+    } else { s };
     let mut b = s.into_bytes();
     match rng.below(14) {
         0 => { let n = rng.below(b.len() as u64 + 1) as usize; b.truncate(n); }      // truncated
+        4 if b.len() > 300 => { let n = 200 + rng.below(120) as usize; b.truncate(n.min(b.len())); } // truncated near 256
         1 => { let i = rng.below(b.len() as u64) as usize; b[i] = 0xff; }                 // invalid UTF-8
         2 => { b = vec![b'['; 200]; }                                                    // deep nesting
         3 => { b = vec![]; }
